@@ -167,7 +167,7 @@ func init() {
 			"status 1 and writes no SVG for a rejected program (R-PARSEGATE).",
 		NotDecided:  "That each static check's predicate is right for every program (scope, type and termination predicates are value-level).",
 		Assumptions: []string{"advancePastNL is the only routine that discards more than one token"},
-		Rules:       []*Rule{ruleEOLState, ruleParseGate, ruleTermConj, ruleScopePairParser, ruleListUse},
+		Rules:       []*Rule{ruleEOLState, ruleParseGate, ruleTermConj, ruleScopePairParser, ruleListUse, ruleTypeRel},
 	})
 }
 
@@ -180,7 +180,7 @@ func init() {
 			"composite type into wrapAny — the class behind the confirmed internal-error panics (R-FIXED).",
 		NotDecided:  "Termination, index ranges, nil values that travel through fields, and that line/column are correct (position arithmetic is value-level).",
 		Assumptions: []string{"field-borne nils are not tracked"},
-		Rules:       []*Rule{ruleNilRet, ruleScopeType, ruleFixed, ruleConcrete, ruleLexBound, ruleIndexGuard, ruleProgress},
+		Rules:       []*Rule{ruleNilRet, ruleScopeType, ruleFixed, ruleConcrete, ruleLexBound, ruleIndexGuard, ruleProgress, ruleParseGate},
 	})
 	Register(&Property{
 		ID: "C04",
@@ -189,7 +189,7 @@ func init() {
 			"(R-ACCEPTWRAP); inference of a map literal's type does not depend on Go map order (R-MAPRANGE).",
 		NotDecided:  "The content of accepts/matches/combineTypes (which cells of the matrix are true) and the operand checks' predicates — value-level.",
 		Assumptions: []string{},
-		Rules:       []*Rule{ruleFixed, ruleConcrete, ruleAcceptWrap, ruleMapRange, ruleListUse},
+		Rules:       []*Rule{ruleFixed, ruleConcrete, ruleTypeRel, ruleAcceptWrap, ruleMapRange, ruleListUse},
 	})
 	Register(&Property{
 		ID: "C06",
@@ -239,7 +239,7 @@ func init() {
 			"(R-ERRPROTO); len/has/del use the rune view and the map representation (R-RUNES, R-MAPENC).",
 		NotDecided:  "Returned values and formatted text of the built-ins (value-level).",
 		Assumptions: []string{},
-		Rules:       []*Rule{ruleBuiltinSig, ruleNaNGuard, f2iRule("pkg/evaluator", 4), ruleErrProto, runesRule("pkg/evaluator", "stringVal", 4), ruleEvalMisc},
+		Rules:       []*Rule{ruleBuiltinSig, ruleNaNGuard, f2iRule("pkg/evaluator", 4), ruleErrProto, runesRule("pkg/evaluator", "stringVal", 4), ruleEvalMisc, ruleYield},
 	})
 }
 
@@ -320,6 +320,6 @@ func init() {
 			"handler run are returned (R-YIELD error clause).",
 		NotDecided:  "Cumulative effects of event sequences (history-level).",
 		Assumptions: []string{},
-		Rules:       []*Rule{ruleEvents, ruleScopePairEval, ruleYield},
+		Rules:       []*Rule{ruleEvents, ruleScopePairEval, ruleYield, ruleImmut},
 	})
 }
